@@ -597,6 +597,11 @@ def parse_template(path):
                     spec["_last"]["text"] += " " + d[1:].strip()
                     i += 1
                     continue
+                if d.startswith("|") and spec.get("_lastkey") == "insert" and spec["inserts"]:
+                    pos, anchor, text = spec["inserts"][-1]
+                    spec["inserts"][-1] = (pos, anchor, text + " " + d[1:].strip())
+                    i += 1
+                    continue
                 if d.startswith("|") and spec.get("_lastkey") in ("epilogue", "prologue"):
                     spec[spec["_lastkey"]] += " " + d[1:].strip()
                     i += 1
@@ -943,6 +948,14 @@ def generate(unit, template_path, canary=False, extra_fns=()):
                         elif ch == "{" and depth == 0:
                             break
                         k += 1
+                    itn = [c["text"] for c in byloop[n] if c["kind"] == "iter"]
+                    if itn:
+                        # `for x in EXPR` -> `for x in <name>: EXPR` (names Verus' ghost iterator; annotation only)
+                        mm = re.compile(r"\bin\s+").search(bmask, loops[n])
+                        if mm and mm.start() < k:
+                            body = body[:mm.end()] + itn[0] + ": " + body[mm.end():]
+                            bmask = bmask[:mm.end()] + " " * (len(itn[0]) + 2) + bmask[mm.end():]
+                            k += len(itn[0]) + 2
                     inv = [c["text"] for c in byloop[n] if c["kind"] == "invariant"]
                     dec = [c["text"] for c in byloop[n] if c["kind"] == "decreases"]
                     ins = ""
@@ -975,6 +988,8 @@ def generate(unit, template_path, canary=False, extra_fns=()):
                     g.emit(f"        {c['text']},", {"kind": "clause", "file": trel, "line": c["tline"], "id": cid})
             g.emit_mapped(body, spec["file"], line_of(src.text, bo))
             for c in spec["loops"]:
+                if c["kind"] == "iter":
+                    continue
                 n = counters.get("loop_" + c["kind"], 0)
                 counters["loop_" + c["kind"]] = n + 1
                 clause_ids.append({"id": f"{unit}::{spec['as'] or spec['name']}::loop{c['loop']}_{c['kind']}#{n}", "kind": "loop_" + c["kind"], "text": c["text"], "gen_line": None})
